@@ -127,7 +127,16 @@ FIT_INJ = {
     "fit_descriptions_too_long": (lambda i, n: i == 0, lambda data, fd, i, n: (data, fd + [None])),
     "fit_description_without_method": (lambda i, n: True, lambda data, fd, i, n: (data, fd[:i] + [{"weights": None}] + fd[i + 1:])),
     "unknown_fit_method": (lambda i, n: True, lambda data, fd, i, n: (data, fd[:i] + [{"method": "least_absolute"}] + fd[i + 1:])),
+    # only meaningful where least squares is implemented (exponentiated Weibull carrier), see run_case
+    "unknown_weight_keyword": (lambda i, n: True, lambda data, fd, i, n: (data, fd[:i] + [{"method": "wlsq", "weights": "quartic"}] + fd[i + 1:])),
+    "scalar_weights": (lambda i, n: True, lambda data, fd, i, n: (data, fd[:i] + [{"method": "wlsq", "weights": 2.0}] + fd[i + 1:])),
 }
+
+
+def _with(data, col, value):
+    d = data.copy()
+    d[3, col] = value
+    return d
 
 
 def control_data(carrier, n_dim, model):
@@ -214,6 +223,15 @@ def run_case(case):
                 for pos in range(n_dim):
                     if not app(pos, n_dim):
                         continue
+                    if inj in ("unknown_weight_keyword", "scalar_weights"):
+                        if carrier != "ExponentiatedWeibullDistribution":
+                            continue
+                        # control: the same description with a valid keyword fits
+                        try:
+                            GlobalHierarchicalModel(base_descs(carrier, n_dim)).fit(
+                                data.copy(), [None] * pos + [{"method": "wlsq", "weights": "linear"}] + [None] * (n_dim - pos - 1))
+                        except Exception:
+                            continue
                     n += 1
                     nontriv += 1
                     d2, fd2 = mut(data.copy(), [None] * n_dim, pos, n_dim)
@@ -323,6 +341,18 @@ def _unknown_method_dist():
     return d.parameters
 
 
+def _eval_nd(method, n_dim, pos, value):
+    def run():
+        m = _model2() if n_dim == 2 else _model3()
+        pt = [1.0, 2.0, 1.5][:n_dim]
+        if method == "pdf" or n_dim == 2:
+            _ctl(lambda: getattr(m, method)([pt]))
+        bad_pt = list(pt)
+        bad_pt[pos] = value
+        return getattr(m, method)([pt, bad_pt] if method == "pdf" else [bad_pt])
+    return run
+
+
 MISC = {
     "hdc_limits_wrong_length": _hdc(limits=[(0, 8)], deltas=[0.2, 0.2]),
     "hdc_limits_too_long": _hdc(limits=[(0, 8), (0, 10), (0, 3)], deltas=[0.2, 0.2]),
@@ -334,6 +364,9 @@ MISC = {
     "pdf_inf_point": _eval("pdf", float("inf")),
     "cdf_nan_point": _eval("cdf", float("nan")),
     "cdf_inf_point": _eval("cdf", float("inf")),
+    **{f"{meth}_{name}_point_dim{pos}_of_{nd}": _eval_nd(meth, nd, pos, val)
+       for meth in ("pdf", "cdf") for nd in (2, 3) for pos in range(3) if pos < nd
+       for name, val in (("nan", float("nan")), ("inf", float("inf")), ("neginf", float("-inf")))},
     "direct_sampling_3d_model": _contour3(DirectSamplingContour),
     "and_contour_3d_model": _contour3(AndContour),
     "or_contour_3d_model": _contour3(OrContour),
@@ -360,7 +393,7 @@ MISC = {
 def main(ctx):
     ctx.rule = ("fault enumeration: 12 description injectors x every applicable position x n_dim 1..4 x every family as carrier "
                 "(singles); all ordered pairs of description injectors at all position pairs for n_dim <= 3 with three carriers; "
-                "6 fit-call injectors x positions x n_dim 1..3 x carriers whose control fit succeeds; 30 further malformations "
+                "8 fit-call injectors x positions x n_dim 1..3 x carriers whose control fit succeeds; 60 further malformations "
                 "(HDC limits/deltas, non-finite points, 3-D models for 2-D contours, non-models, slicer keywords/reference "
                 "keywords/types, too few intervals, weight keywords, fit methods), each with its control. evaluations = "
                 "malformed calls; each is non-trivial (its control passes).")
